@@ -52,6 +52,20 @@ def json5_text(v, rng):
     return json.dumps(v)
 
 
+def intern_shared(v, table=None):
+    if table is None:
+        table = {}
+    if isinstance(v, list):
+        w = [intern_shared(x, table) for x in v]
+    elif isinstance(v, dict):
+        w = {k: intern_shared(x, table) for k, x in v.items()}
+    else:
+        return v
+    if not w:
+        return w
+    return table.setdefault(json.dumps(w, sort_keys=False), w)
+
+
 def write_all(dirname, stem, v, seed):
     import plistlib
     import yaml
@@ -125,8 +139,10 @@ def impl_case(item):
     try:
         opts_kw = sl.options_kwargs(*item['opts'])
         mk = lambda: graphtage.BuildOptions(**opts_kw)     # noqa: E731
-        pd = write_all(dirname, 'd', item['d'], item['seed'])
-        px = write_all(dirname, 'x', item['x'], item['seed'] + 1)
+        # items travel to the worker as JSON, which loses object identity: re-introduce sharing by interning structurally
+        # equal non-empty containers (yaml.dump then writes anchors/aliases, plistlib/json spell them out)
+        pd = write_all(dirname, 'd', intern_shared(item['d']), item['seed'])
+        px = write_all(dirname, 'x', intern_shared(item['x']), item['seed'] + 1)
         roots_d = {f: _ser_root(_load(f, pd[f], mk())) for f in FMTS}
         roots_x = {f: _ser_root(_load(f, px[f], mk())) for f in FMTS}
         dd, dx = [], []
@@ -242,14 +258,24 @@ def g_scalar(rng):
     return ''.join(rng.choice('abc') for _ in range(rng.randint(0, 6)))
 
 
-def g_value(rng, depth, width, top=False):
+def g_value(rng, depth, width, top=False, pool=None):
+    """pool: containers built so far in this document; with some probability one of them is REUSED (the same Python object
+    at two places), which yaml.dump writes as an anchor + alias while the JSON/JSON5/plist writers spell it out twice"""
+    if pool is None:
+        pool = []
     r = rng.random()
     if not top and (depth <= 0 or r < 0.35):
         return g_scalar(rng)
+    if not top and pool and rng.random() < 0.18:
+        return rng.choice(pool)
     if r < 0.6:
-        return [g_value(rng, depth - 1, width) for _ in range(rng.randint(0, width))]
-    ks = rng.sample(KEYS, rng.randint(0, min(width, len(KEYS))))
-    return {k: g_value(rng, depth - 1, width) for k in ks}
+        v = [g_value(rng, depth - 1, width, pool=pool) for _ in range(rng.randint(0, width))]
+    else:
+        ks = rng.sample(KEYS, rng.randint(0, min(width, len(KEYS))))
+        v = {k: g_value(rng, depth - 1, width, pool=pool) for k in ks}
+    if v:
+        pool.append(v)
+    return v
 
 
 def no_null(v):
@@ -293,6 +319,12 @@ def gen_items(tier, rng, workdir):
         items += [json.loads(l) for l in open(CORPUS) if l.strip()]
     n = 90 if tier == 'quick' else 900
     pairs = [(a, b) for a in FMTS for b in FMTS]
+    # a sub-list shared by identity (YAML anchor/alias; spelled out twice elsewhere), list edits disabled
+    shared = [1, 2, 3, 4]
+    for lm, pr in (('off', ['yaml', 'json']), ('same', ['json', 'yaml']), ('off', ['plist', 'json5'])):
+        items.append({'d': {'first': shared, 'second': shared, 'name': 'demo'},
+                      'x': {'first': [1, 2, 3, 4], 'second': [2, 3, 4, 5], 'name': 'demo'},
+                      'opts': ['auto', lm], 'pair': pr, 'cli': []})
     for k in range(n):
         depth, width = (2, 3) if k % 3 else (3, 4)
         d = g_value(rng, depth, width, top=rng.random() < 0.9)
